@@ -48,7 +48,8 @@ def palette() -> Dict[str, List[Dict[str, Any]]]:
         nonlocal day
         day += 1
         d = (day * 37) % 300
-        return f"2020-{1 + d // 28 % 12:02d}-{1 + d % 28:02d} {(day * 5) % 24:02d}:{(day * 7) % 60:02d}:{(day * 11) % 60:02d}{TZS[day % 4]}"
+        frac = ("", ".250000", ".000001", ".999999")[(day // 3) % 4]  # sub-second instants are part of the row
+        return f"2020-{1 + d // 28 % 12:02d}-{1 + d % 28:02d} {(day * 5) % 24:02d}:{(day * 7) % 60:02d}:{(day * 11) % 60:02d}{frac}{TZS[day % 4]}"
 
     patterns = ("none", "crypto_fee", "fiat_all", "fiat_no_fee_only", "crypto_fee+fiat_in", "crypto_fee+fiat_with_fee_only")
     for i, typ in enumerate(IN_TYPES):
